@@ -752,3 +752,256 @@ package plenccodec
 //@   safety C19
 //@   assigns nothing
 //@   ensures[C19,C02] result == 2
+
+//@ # ---- the JSON outputter (C15) ----------------------------------------------------
+//@ # appendString: the result is data, a quotation mark, the unit of every source byte in
+//@ # order (esclen/escbyte: RFC 8259 section 7; each unit parses back to its byte by lemma
+//@ # esc_parses_back), and a closing quotation mark. Ghosts, defined by their recurrences
+//@ # under wfesc(): eoff(i) is the offset of source byte i's unit in the string body; esrc(k)
+//@ # and eidx(k) are the source byte and the position within its unit that body offset k shows.
+//@ func plenccodec.*JSONOutput.appendString
+//@   safety C15
+//@   mutable
+//@   assigns nothing
+//@   ghostdef wfesc() ==> eoff(0) == 0
+//@   loop 1 ghostdef wfesc() && i < len(v) ==> eoff(i + 1) == eoff(i) + esclen(v[i])
+//@   loop 1 ghostdef wfesc() && i < len(v) ==> esrc(eoff(i)) == i && eidx(eoff(i)) == 0
+//@   loop 1 ghostdef wfesc() && i < len(v) && esclen(v[i]) > 1 ==> esrc(eoff(i) + 1) == i && eidx(eoff(i) + 1) == 1
+//@   loop 1 ghostdef wfesc() && i < len(v) && esclen(v[i]) > 2 ==> esrc(eoff(i) + 2) == i && eidx(eoff(i) + 2) == 2 && esrc(eoff(i) + 3) == i && eidx(eoff(i) + 3) == 3 && esrc(eoff(i) + 4) == i && eidx(eoff(i) + 4) == 4 && esrc(eoff(i) + 5) == i && eidx(eoff(i) + 5) == 5
+//@   loop 1 invariant[C15] 0 <= i && i <= len(v) && len(data) > len(data0)
+//@   loop 1 invariant[C15] wfesc() ==> len(data) == len(data0) + 1 + eoff(i) && 0 <= eoff(i) && eoff(i) <= 6 * i
+//@   loop 1 invariant[C15,C06] forall k int :: 0 <= k && k < len(data0) ==> data[k] == data0[k]
+//@   loop 1 invariant[C15] data[len(data0)] == '"'
+//@   loop 1 invariant[C15] wfesc() ==> forall k int :: 0 <= k && k < eoff(i) ==> data[len(data0) + 1 + k] == escbyte(v[esrc(k)], eidx(k))
+//@   loop 1 decreases len(v) - i
+//@   ensures[C15] wfesc() ==> len(result) == len(data) + 2 + eoff(len(v))
+//@   ensures[C15,C06] forall k int :: 0 <= k && k < len(data) ==> result[k] == data[k]
+//@   ensures[C15] result[len(data)] == '"'
+//@   ensures[C15] wfesc() ==> result[len(data) + 1 + eoff(len(v))] == '"'
+//@   ensures[C15] wfesc() ==> forall k int :: 0 <= k && k < eoff(len(v)) ==> result[len(data) + 1 + k] == escbyte(v[esrc(k)], eidx(k))
+
+//@ # The outputter's representation invariant WF: depth counts the open containers, one stack entry
+//@ # each (j.depth == len(j.stack) && j.depth >= 0), every entry holds one of the three states below, and
+//@ # the stack's array is an object of its own ('separate').
+//@ # States of a stack entry: 0 = array (next comes a value), 1 = object (next comes a key), 2 = object (next comes the key's value).
+//@ func plenccodec.*JSONOutput.Reset
+//@   safety C15
+//@   mutable
+//@   separate j.stack
+//@   ensures[C15] len(j.data) == 0 && j.depth == 0 && !j.inField && len(j.stack) == 0      # the state of a new outputter
+
+//@ func plenccodec.*JSONOutput.prefix
+//@   safety C15
+//@   mutable
+//@   separate j.stack
+//@   assigns[C15] B+
+//@   writes j 64
+//@   loop 1 invariant[C15] 0 <= i && (j.depth >= 0 ==> i <= j.depth) && j.depth == old(j.depth) && loadslice(j + 40) == old(loadslice(j + 40)) && !j.inField
+//@   loop 1 invariant[C15] i < (1 << 40) && len(j.data) == old(len(j.data)) + 2 * i      # lengths stay below 2^40, so 2*i does not wrap
+//@   loop 1 decreases j.depth - i
+//@   ensures[C15] j.depth == old(j.depth) && loadslice(j + 40) == old(loadslice(j + 40)) && !j.inField
+//@   ensures[C15] old(j.inField) ==> bytes(j.data) == old(bytes(j.data))
+//@   ensures[C15] !old(j.inField) && j.depth >= 0 ==> len(j.data) == old(len(j.data)) + 2 * j.depth     # two spaces per open container
+//@   loop 1 invariant[C15,C06] forall k int :: 0 <= k && k < old(len(j.data)) ==> j.data[k] == old(j.data[k])
+//@   loop 1 invariant[C15] forall k int :: old(len(j.data)) <= k && k < len(j.data) ==> j.data[k] == ' '
+//@   ensures[C15,C06] len(j.data) >= old(len(j.data)) && (forall k int :: 0 <= k && k < old(len(j.data)) ==> j.data[k] == old(j.data[k]))
+//@   ensures[C15] forall k int :: old(len(j.data)) <= k && k < len(j.data) ==> j.data[k] == ' '
+
+//@ func plenccodec.*JSONOutput.end
+//@   safety C15
+//@   mutable
+//@   separate j.stack
+//@   requires j.depth == len(j.stack) && j.depth >= 0
+//@   requires forall k int :: 0 <= k && k < j.depth ==> 0 <= j.stack[k].state && j.stack[k].state <= 2
+//@   ensures[C15] j.depth == len(j.stack) && j.depth >= 0
+//@   ensures[C15] forall k int :: 0 <= k && k < j.depth ==> 0 <= j.stack[k].state && j.stack[k].state <= 2
+//@   ensures[C15] old(j.depth) > 0 ==> j.depth == old(j.depth) - 1
+//@   ensures[C15] old(j.depth) == 0 ==> j.depth == 0 && bytes(j.data) == old(bytes(j.data)) ++ "\n"
+//@   ensures[C15] j.inField == old(j.inField)
+//@   # closing a container: the separator written after its last member is taken back (",\n" becomes "\n"); an empty container is left as it is
+//@   ensures[C15] old(j.depth) > 0 && old(len(j.data)) >= 2 && old(j.data[len(j.data) - 2]) == ',' && old(j.data[len(j.data) - 1]) == '\n' ==> len(j.data) == old(len(j.data)) - 1 && j.data[len(j.data) - 1] == '\n'
+//@   ensures[C15] old(j.depth) > 0 && !(old(len(j.data)) >= 2 && old(j.data[len(j.data) - 2]) == ',' && old(j.data[len(j.data) - 1]) == '\n') ==> bytes(j.data) == old(bytes(j.data))
+//@   ensures[C15,C06] forall k int :: 0 <= k && k + 2 < old(len(j.data)) ==> j.data[k] == old(j.data[k])
+
+//@ func plenccodec.*JSONOutput.punctuate
+//@   safety C15
+//@   mutable
+//@   separate j.stack
+//@   requires j.depth == len(j.stack) && j.depth >= 0
+//@   requires forall k int :: 0 <= k && k < j.depth ==> 0 <= j.stack[k].state && j.stack[k].state <= 2
+//@   ensures[C15] j.depth == len(j.stack) && j.depth >= 0
+//@   ensures[C15] forall k int :: 0 <= k && k < j.depth ==> 0 <= j.stack[k].state && j.stack[k].state <= 2
+//@   ensures[C15] j.depth == old(j.depth) && loadslice(j + 40) == old(loadslice(j + 40)) && j.inField == old(j.inField)
+//@   # at top level nothing follows a value; in an object a key is followed by a colon and its value by a comma; array elements are followed by a comma
+//@   ensures[C15] old(j.depth) == 0 ==> bytes(j.data) == old(bytes(j.data))
+//@   ensures[C15] old(j.depth) > 0 && old(j.stack[j.depth - 1].state) == 1 ==> bytes(j.data) == old(bytes(j.data)) ++ ": " && j.stack[j.depth - 1].state == 2
+//@   ensures[C15] old(j.depth) > 0 && old(j.stack[j.depth - 1].state) == 2 ==> bytes(j.data) == old(bytes(j.data)) ++ ",\n" && j.stack[j.depth - 1].state == 1
+//@   ensures[C15] old(j.depth) > 0 && old(j.stack[j.depth - 1].state) == 0 ==> bytes(j.data) == old(bytes(j.data)) ++ ",\n" && j.stack[j.depth - 1].state == 0
+//@   ensures[C15] forall k int :: 0 <= k && k < j.depth - 1 ==> j.stack[k].state == old(j.stack[k].state)
+
+//@ # prefix, continued: what is written is indentation only
+//@ # (public methods) every method keeps WF; containers push and pop one stack entry; values leave the depth alone
+//@ func plenccodec.*JSONOutput.StartObject
+//@   safety C15
+//@   mutable
+//@   separate j.stack
+//@   requires j.depth == len(j.stack) && j.depth >= 0
+//@   requires forall k int :: 0 <= k && k < j.depth ==> 0 <= j.stack[k].state && j.stack[k].state <= 2
+//@   ensures[C15] j.depth == len(j.stack) && j.depth >= 0
+//@   ensures[C15] forall k int :: 0 <= k && k < j.depth ==> 0 <= j.stack[k].state && j.stack[k].state <= 2
+//@   ensures[C15] j.depth == old(j.depth) + 1 && !j.inField && j.stack[j.depth - 1].state == 1      # an object starts by expecting a key
+//@   ensures[C15] forall k int :: 0 <= k && k < old(j.depth) ==> j.stack[k].state == old(j.stack[k].state)
+//@   ensures[C15] len(j.data) >= old(len(j.data)) + 2 && j.data[len(j.data) - 2] == '{' && j.data[len(j.data) - 1] == '\n'
+//@   ensures[C15,C06] forall k int :: 0 <= k && k < old(len(j.data)) ==> j.data[k] == old(j.data[k])
+
+//@ func plenccodec.*JSONOutput.StartArray
+//@   safety C15
+//@   mutable
+//@   separate j.stack
+//@   requires j.depth == len(j.stack) && j.depth >= 0
+//@   requires forall k int :: 0 <= k && k < j.depth ==> 0 <= j.stack[k].state && j.stack[k].state <= 2
+//@   ensures[C15] j.depth == len(j.stack) && j.depth >= 0
+//@   ensures[C15] forall k int :: 0 <= k && k < j.depth ==> 0 <= j.stack[k].state && j.stack[k].state <= 2
+//@   ensures[C15] j.depth == old(j.depth) + 1 && !j.inField && j.stack[j.depth - 1].state == 0      # an array expects values
+//@   ensures[C15] forall k int :: 0 <= k && k < old(j.depth) ==> j.stack[k].state == old(j.stack[k].state)
+//@   ensures[C15] len(j.data) >= old(len(j.data)) + 2 && j.data[len(j.data) - 2] == '[' && j.data[len(j.data) - 1] == '\n'
+//@   ensures[C15,C06] forall k int :: 0 <= k && k < old(len(j.data)) ==> j.data[k] == old(j.data[k])
+
+//@ func plenccodec.*JSONOutput.EndObject
+//@   safety C15
+//@   mutable
+//@   separate j.stack
+//@   requires j.depth == len(j.stack) && j.depth >= 0
+//@   requires forall k int :: 0 <= k && k < j.depth ==> 0 <= j.stack[k].state && j.stack[k].state <= 2
+//@   ensures[C15] j.depth == len(j.stack) && j.depth >= 0
+//@   ensures[C15] forall k int :: 0 <= k && k < j.depth ==> 0 <= j.stack[k].state && j.stack[k].state <= 2
+//@   ensures[C15] old(j.depth) > 0 ==> j.depth == old(j.depth) - 1
+//@   ensures[C15] !j.inField
+
+//@ func plenccodec.*JSONOutput.EndArray
+//@   safety C15
+//@   mutable
+//@   separate j.stack
+//@   requires j.depth == len(j.stack) && j.depth >= 0
+//@   requires forall k int :: 0 <= k && k < j.depth ==> 0 <= j.stack[k].state && j.stack[k].state <= 2
+//@   ensures[C15] j.depth == len(j.stack) && j.depth >= 0
+//@   ensures[C15] forall k int :: 0 <= k && k < j.depth ==> 0 <= j.stack[k].state && j.stack[k].state <= 2
+//@   ensures[C15] old(j.depth) > 0 ==> j.depth == old(j.depth) - 1
+//@   ensures[C15] !j.inField
+
+//@ func plenccodec.*JSONOutput.NameField
+//@   safety C15
+//@   mutable
+//@   separate j.stack
+//@   requires j.depth == len(j.stack) && j.depth >= 0
+//@   requires forall k int :: 0 <= k && k < j.depth ==> 0 <= j.stack[k].state && j.stack[k].state <= 2
+//@   ensures[C15] j.depth == len(j.stack) && j.depth >= 0
+//@   ensures[C15] forall k int :: 0 <= k && k < j.depth ==> 0 <= j.stack[k].state && j.stack[k].state <= 2
+//@   ensures[C15] j.depth == old(j.depth) && j.inField        # the value that follows goes on the same line
+//@   ensures[C15] old(j.depth) > 0 && old(j.stack[j.depth - 1].state) == 1 ==> j.stack[j.depth - 1].state == 2 && j.data[len(j.data) - 2] == ':' && j.data[len(j.data) - 1] == ' '
+
+//@ func plenccodec.*JSONOutput.String
+//@   safety C15
+//@   mutable
+//@   separate j.stack
+//@   requires j.depth == len(j.stack) && j.depth >= 0
+//@   requires forall k int :: 0 <= k && k < j.depth ==> 0 <= j.stack[k].state && j.stack[k].state <= 2
+//@   ensures[C15] j.depth == len(j.stack) && j.depth >= 0
+//@   ensures[C15] forall k int :: 0 <= k && k < j.depth ==> 0 <= j.stack[k].state && j.stack[k].state <= 2
+//@   ensures[C15] j.depth == old(j.depth) && !j.inField
+//@   ensures[C15] old(j.depth) > 0 && old(j.stack[j.depth - 1].state) == 2 ==> j.stack[j.depth - 1].state == 1      # after a value the object expects a key again
+//@   ensures[C15] old(j.depth) > 0 && (old(j.stack[j.depth - 1].state) == 0 || old(j.stack[j.depth - 1].state) == 2) ==> j.data[len(j.data) - 2] == ',' && j.data[len(j.data) - 1] == '\n'
+
+//@ func plenccodec.*JSONOutput.Int64
+//@   safety C15
+//@   mutable
+//@   separate j.stack
+//@   requires j.depth == len(j.stack) && j.depth >= 0
+//@   requires forall k int :: 0 <= k && k < j.depth ==> 0 <= j.stack[k].state && j.stack[k].state <= 2
+//@   ensures[C15] j.depth == len(j.stack) && j.depth >= 0
+//@   ensures[C15] forall k int :: 0 <= k && k < j.depth ==> 0 <= j.stack[k].state && j.stack[k].state <= 2
+//@   ensures[C15] j.depth == old(j.depth) && !j.inField
+//@   ensures[C15] old(j.depth) > 0 && old(j.stack[j.depth - 1].state) == 2 ==> j.stack[j.depth - 1].state == 1
+//@   ensures[C15] old(j.depth) > 0 && (old(j.stack[j.depth - 1].state) == 0 || old(j.stack[j.depth - 1].state) == 2) ==> j.data[len(j.data) - 2] == ',' && j.data[len(j.data) - 1] == '\n'
+
+//@ func plenccodec.*JSONOutput.Uint64
+//@   safety C15
+//@   mutable
+//@   separate j.stack
+//@   requires j.depth == len(j.stack) && j.depth >= 0
+//@   requires forall k int :: 0 <= k && k < j.depth ==> 0 <= j.stack[k].state && j.stack[k].state <= 2
+//@   ensures[C15] j.depth == len(j.stack) && j.depth >= 0
+//@   ensures[C15] forall k int :: 0 <= k && k < j.depth ==> 0 <= j.stack[k].state && j.stack[k].state <= 2
+//@   ensures[C15] j.depth == old(j.depth) && !j.inField
+//@   ensures[C15] old(j.depth) > 0 && old(j.stack[j.depth - 1].state) == 2 ==> j.stack[j.depth - 1].state == 1
+//@   ensures[C15] old(j.depth) > 0 && (old(j.stack[j.depth - 1].state) == 0 || old(j.stack[j.depth - 1].state) == 2) ==> j.data[len(j.data) - 2] == ',' && j.data[len(j.data) - 1] == '\n'
+
+//@ func plenccodec.*JSONOutput.Float64
+//@   safety C15
+//@   mutable
+//@   separate j.stack
+//@   requires j.depth == len(j.stack) && j.depth >= 0
+//@   requires forall k int :: 0 <= k && k < j.depth ==> 0 <= j.stack[k].state && j.stack[k].state <= 2
+//@   ensures[C15] j.depth == len(j.stack) && j.depth >= 0
+//@   ensures[C15] forall k int :: 0 <= k && k < j.depth ==> 0 <= j.stack[k].state && j.stack[k].state <= 2
+//@   ensures[C15] j.depth == old(j.depth) && !j.inField
+//@   ensures[C15] old(j.depth) > 0 && old(j.stack[j.depth - 1].state) == 2 ==> j.stack[j.depth - 1].state == 1
+//@   ensures[C15] old(j.depth) > 0 && (old(j.stack[j.depth - 1].state) == 0 || old(j.stack[j.depth - 1].state) == 2) ==> j.data[len(j.data) - 2] == ',' && j.data[len(j.data) - 1] == '\n'
+
+//@ func plenccodec.*JSONOutput.Float32
+//@   safety C15
+//@   mutable
+//@   separate j.stack
+//@   requires j.depth == len(j.stack) && j.depth >= 0
+//@   requires forall k int :: 0 <= k && k < j.depth ==> 0 <= j.stack[k].state && j.stack[k].state <= 2
+//@   ensures[C15] j.depth == len(j.stack) && j.depth >= 0
+//@   ensures[C15] forall k int :: 0 <= k && k < j.depth ==> 0 <= j.stack[k].state && j.stack[k].state <= 2
+//@   ensures[C15] j.depth == old(j.depth) && !j.inField
+//@   ensures[C15] old(j.depth) > 0 && old(j.stack[j.depth - 1].state) == 2 ==> j.stack[j.depth - 1].state == 1
+//@   ensures[C15] old(j.depth) > 0 && (old(j.stack[j.depth - 1].state) == 0 || old(j.stack[j.depth - 1].state) == 2) ==> j.data[len(j.data) - 2] == ',' && j.data[len(j.data) - 1] == '\n'
+
+//@ func plenccodec.*JSONOutput.Bool
+//@   safety C15
+//@   mutable
+//@   separate j.stack
+//@   requires j.depth == len(j.stack) && j.depth >= 0
+//@   requires forall k int :: 0 <= k && k < j.depth ==> 0 <= j.stack[k].state && j.stack[k].state <= 2
+//@   ensures[C15] j.depth == len(j.stack) && j.depth >= 0
+//@   ensures[C15] forall k int :: 0 <= k && k < j.depth ==> 0 <= j.stack[k].state && j.stack[k].state <= 2
+//@   ensures[C15] j.depth == old(j.depth) && !j.inField
+//@   ensures[C15] old(j.depth) > 0 && old(j.stack[j.depth - 1].state) == 2 ==> j.stack[j.depth - 1].state == 1
+//@   ensures[C15] old(j.depth) > 0 && (old(j.stack[j.depth - 1].state) == 0 || old(j.stack[j.depth - 1].state) == 2) ==> j.data[len(j.data) - 2] == ',' && j.data[len(j.data) - 1] == '\n'
+
+//@ func plenccodec.*JSONOutput.Time
+//@   safety C15
+//@   mutable
+//@   separate j.stack
+//@   requires j.depth == len(j.stack) && j.depth >= 0
+//@   requires forall k int :: 0 <= k && k < j.depth ==> 0 <= j.stack[k].state && j.stack[k].state <= 2
+//@   ensures[C15] j.depth == len(j.stack) && j.depth >= 0
+//@   ensures[C15] forall k int :: 0 <= k && k < j.depth ==> 0 <= j.stack[k].state && j.stack[k].state <= 2
+//@   ensures[C15] j.depth == old(j.depth) && !j.inField
+//@   ensures[C15] old(j.depth) > 0 && old(j.stack[j.depth - 1].state) == 2 ==> j.stack[j.depth - 1].state == 1
+//@   ensures[C15] old(j.depth) > 0 && (old(j.stack[j.depth - 1].state) == 0 || old(j.stack[j.depth - 1].state) == 2) ==> j.data[len(j.data) - 2] == ',' && j.data[len(j.data) - 1] == '\n'
+
+//@ func plenccodec.*JSONOutput.Raw
+//@   safety C15
+//@   mutable
+//@   separate j.stack
+//@   requires j.depth == len(j.stack) && j.depth >= 0
+//@   requires forall k int :: 0 <= k && k < j.depth ==> 0 <= j.stack[k].state && j.stack[k].state <= 2
+//@   ensures[C15] j.depth == len(j.stack) && j.depth >= 0
+//@   ensures[C15] forall k int :: 0 <= k && k < j.depth ==> 0 <= j.stack[k].state && j.stack[k].state <= 2
+//@   ensures[C15] j.depth == old(j.depth) && !j.inField
+//@   ensures[C15] old(j.depth) > 0 && old(j.stack[j.depth - 1].state) == 2 ==> j.stack[j.depth - 1].state == 1
+//@   ensures[C15] old(j.depth) > 0 && (old(j.stack[j.depth - 1].state) == 0 || old(j.stack[j.depth - 1].state) == 2) ==> j.data[len(j.data) - 2] == ',' && j.data[len(j.data) - 1] == '\n'
+
+//@ func plenccodec.*JSONOutput.Done
+//@   safety C15
+//@   mutable
+//@   separate j.stack
+//@   requires j.depth == len(j.stack) && j.depth >= 0
+//@   requires forall k int :: 0 <= k && k < j.depth ==> 0 <= j.stack[k].state && j.stack[k].state <= 2
+//@   ensures[C15] j.depth == len(j.stack) && j.depth >= 0
+//@   ensures[C15] forall k int :: 0 <= k && k < j.depth ==> 0 <= j.stack[k].state && j.stack[k].state <= 2
+//@   ensures[C15] old(j.depth) == 0 ==> bytes(result) == old(bytes(j.data)) ++ "\n"
